@@ -266,6 +266,12 @@ def dict_builder_entries(cx: Cx, fn: FunctionInfo, table: str, ob_id: str) -> li
                     keys, v = fk
                     kf = iter_fields(prov, keys)
                     out.append(Entry(table, frozenset(f for r, f in kf if r != "?"), any(r == "?" for r, _ in kf), v, _value_field(prov, v), _conds(ectx, s, ev), where(fn, ev.line), fn.qualname, ev.line, _iter_record(prov, keys)))
+                elif (pc := _pairs_update(ev, t)) is not None:
+                    prov.scan(pc)
+                    k, v = pc[2][1], pc[2][2]
+                    conds = tuple((c, True) for g in pc[3] for c in g[2])
+                    kf = prov.fields(k)
+                    out.append(Entry(table, frozenset(f for r, f in kf if r != "?"), any(r == "?" for r, _ in kf), v, _value_field(prov, v), _conds(ectx, s, ev) + conds + _partial_cond(prov, k), where(fn, ev.line), fn.qualname, ev.line, prov.record_of(k)))
                 else:
                     raise AnalysisError(f"unrecognised mutation of the result dict in {fn.qualname} at line {ev.line}", ob_id)
         elif op(t) == "comp" and t[1] == "dict":
@@ -299,6 +305,19 @@ def _fromkeys_update(ev, target):
     a = c[2][0]
     if op(a) == "call" and a[1] == ("attr", ("builtin", "dict"), "fromkeys") and len(a[2]) == 2 and not a[3]:
         return a[2][0], a[2][1]
+    return None
+
+
+def _pairs_update(ev, target):
+    """``target.update(<(k, v) pairs or {k: v} comprehension>)`` -> the dict comprehension it stands for."""
+    c = ev.a
+    if ev.kind != "expr" or op(c) != "call" or callee_name(c) != "update" or op(c[1]) != "attr" or c[1][1] != target or len(c[2]) != 1 or c[3]:
+        return None
+    a = c[2][0]
+    if op(a) == "comp" and a[1] == "dict":
+        return a
+    if op(a) == "comp" and a[1] in ("gen", "list") and op(a[2]) == "tuple" and len(a[2][1]) == 2:
+        return ("comp", "dict", ("kv", a[2][1][0], a[2][1][1]), a[3])
     return None
 
 
@@ -432,6 +451,17 @@ def index_method_entries(cx: Cx, fn: FunctionInfo, ob_id: str) -> dict[str, list
                 kf = iter_fields(prov, keys)
                 out.setdefault(table, []).append(
                     Entry(table, frozenset(f for r, f in kf if r != "?"), any(r == "?" for r, _ in kf), v, _value_field(prov, v), _conds(ctx, s, ev), where(fn, ev.line), fn.qualname, ev.line, _iter_record(prov, keys))
+                )
+                continue
+            pc = _pairs_update(ev, c[1][1])
+            if pc is not None:
+                table = c[1][1][2]
+                prov.scan(pc)
+                k, v = pc[2][1], pc[2][2]
+                conds = tuple((cc, True) for g in pc[3] for cc in g[2])
+                kf = prov.fields(k)
+                out.setdefault(table, []).append(
+                    Entry(table, frozenset(f for r, f in kf if r != "?"), any(r == "?" for r, _ in kf), v, _value_field(prov, v), _conds(ctx, s, ev) + conds + _partial_cond(prov, k), where(fn, ev.line), fn.qualname, ev.line, prov.record_of(k), k)
                 )
                 continue
         if op(c) == "call" and callee_name(c) == "setdefault" and op(c[1]) == "attr" and op(c[1][1]) == "attr" and c[1][1][1] == ("param", self_name) and len(c[2]) == 2:
@@ -847,6 +877,34 @@ def list_segments(s: Summary, t, prov: Prov, depth: int = 0) -> list | None:
                 return None
         return out
     return None
+
+
+def as_comprehension(s: Summary, t):
+    """A list that is allocated empty and filled by ONE ``append`` inside ONE ``for`` loop (under guards
+    tested inside that loop) is the list comprehension with that element, source and filters."""
+    if op(t) == "comp":
+        return t
+    if op(t) != "new" or t[1] != "list" or (len(t) > 4 and op(t[4]) in ("list", "tuple") and t[4][1]):
+        return None
+    muts = _dedupe(s.mutations_of(t))
+    if len(muts) != 1:
+        return None
+    ev, ctx = muts[0]
+    if ev.kind != "expr" or op(ev.a) != "call" or callee_name(ev.a) != "append" or len(ev.a[2]) != 1 or len(ctx.loops) != 1 or ctx.loops[0].kind != "loop":
+        return None
+    lp = ctx.loops[0]
+    ifs = []
+    for g in ctx.guards:
+        if g.kind != "guard":
+            continue
+        if g.line < lp.line:
+            continue
+        ifs.append(g.a if g.b else ("not", g.a))
+    # every path of the loop body that does not append must simply go on to the next element
+    for q in lp.body or ():
+        if q.out is not None and q.out[0] in ("return", "raise", "break"):
+            return None
+    return ("comp", "list", ev.a[2][0], ((lp.a, lp.b, tuple(ifs)),))
 
 
 def _subst_conds(conds, tgt):
